@@ -129,7 +129,7 @@ Proof. intros H E. subst. exact H. Qed.
 Lemma eval_tpa (ev : event) (s : state) (iv : string) (ar : bool) (t : string) (v : value) (a : pa) :
   lookup iv s = Some (t, v) -> nstuck (dpa ev v a) -> eval ev s (tpa iv ar a) = dpa ev v a.
 Proof.
-  intro Hl. induction a as [z|tx n d|m|op x IHx y IHy]; cbn [tpa dpa]; intro Hn.
+  intro Hl. induction a as [z|tx n d|m|op x IHx y IHy|x IHx y IHy|x IHx|f x IHx]; cbn [tpa dpa]; intro Hn.
   - reflexivity.
   - reflexivity.
   - rewrite eval_meth, eval_var, Hl. destruct v; try reflexivity. cbn in Hn. destruct Hn.
@@ -138,6 +138,22 @@ Proof.
     rewrite (IHx (nstuck_bind_l _ _ Hn)).
     destruct (dpa ev v x) as [p|f|k] eqn:Ex; cbn [rbind] in *; [|reflexivity|destruct Hn].
     rewrite (IHy (nstuck_bind_l _ _ Hn)). reflexivity.
+  - pose proof (IHx (nstuck_bind_l _ _ Hn)) as Ex.
+    destruct (div_needs_cast x y).
+    + change (eval ev s (CBin "/" (CCast "double" (tpa iv ar x)) (tpa iv ar y)))
+        with (rbind (rbind (eval ev s (tpa iv ar x)) (fun p => ROk (conv "double" p)))
+                    (fun p => rbind (eval ev s (tpa iv ar y)) (fun q => arith "/" p q))).
+      rewrite Ex. destruct (dpa ev v x) as [p|f|k]; cbn [rbind] in *; [|reflexivity|destruct Hn].
+      rewrite (IHy (nstuck_bind_l _ _ Hn)). reflexivity.
+    + change (eval ev s (CBin "/" (tpa iv ar x) (tpa iv ar y)))
+        with (rbind (eval ev s (tpa iv ar x)) (fun p => rbind (eval ev s (tpa iv ar y)) (fun q => arith "/" p q))).
+      rewrite Ex. destruct (dpa ev v x) as [p|f|k]; cbn [rbind] in *; [|reflexivity|destruct Hn].
+      rewrite (IHy (nstuck_bind_l _ _ Hn)). reflexivity.
+  - change (eval ev s (CUn "-" (tpa iv ar x))) with (rbind (eval ev s (tpa iv ar x)) (fun p => unary "-" p)).
+    rewrite (IHx (nstuck_bind_l _ _ Hn)). reflexivity.
+  - change (eval ev s (CCall f (CCons (tpa iv ar x) CNil)))
+      with (rbind (rbind (eval ev s (tpa iv ar x)) (fun p => rbind (ROk []) (fun vs => ROk (p :: vs)))) (fun vs => ROk (VSym f (map math_arg vs)))).
+    rewrite (IHx (nstuck_bind_l _ _ Hn)). destruct (dpa ev v x) as [p|g|k]; reflexivity.
 Qed.
 
 (* the value of the comparison, before it is read as a truth value *)
@@ -561,6 +577,13 @@ Proof.
       intros x Hx. apply U2. intro Hxb. exact (vars_disjoint a b n x Hba Hbb Hx Hxb).
 Qed.
 
+(* pa_type is int or double *)
+Lemma pa_type_cases (a : pa) : pa_type a = "int" \/ pa_type a = "double".
+Proof.
+  induction a as [z|tx n d|m|op x IHx y IHy|x IHx y IHy|x IHx|f x IHx]; cbn [pa_type]; auto.
+  destruct (String.eqb (pa_type x) "int" && String.eqb (pa_type y) "int"); auto.
+Qed.
+
 (* ---------- block entry: the declarations ---------- *)
 Lemma run_decls_app (ev : event) (d1 d2 : list decl) (st : state) :
   run_decls ev (d1 ++ d2) st = rbind (run_decls ev d1 st) (fun st1 => run_decls ev d2 st1).
@@ -618,8 +641,7 @@ Proof.
     assert (Ei : init_value (agg_type k) (VInt 0) = conv (agg_type k) (VInt 0)).
     { unfold init_value. destruct (is_vector_type (agg_type k)) eqn:Ev; [|reflexivity].
       exfalso. unfold agg_type in Ev. destruct (k_agg k) as [|body]; [discriminate|].
-      clear - Ev. induction body; cbn [pa_type] in Ev; try discriminate.
-      destruct (String.eqb (pa_type body1) "int" && String.eqb (pa_type body2) "int"); discriminate. }
+      destruct (pa_type_cases body) as [E|E]; rewrite E in Ev; discriminate. }
     rewrite Ei.
     destruct (declare_spec (agg_name n) (agg_type k) (conv (agg_type k) (VInt 0)) st1 F2) as (G2 & O2 & M2 & R2).
     eexists. split; [reflexivity|]. split; [split|].
@@ -768,12 +790,6 @@ Proof.
   rewrite B. destruct st; reflexivity.
 Qed.
 
-(* pa_type is int or double *)
-Lemma pa_type_cases (a : pa) : pa_type a = "int" \/ pa_type a = "double".
-Proof.
-  induction a; cbn [pa_type]; auto.
-  destruct (String.eqb (pa_type a1) "int" && String.eqb (pa_type a2) "int"); auto.
-Qed.
 Lemma vec_elem_type (a : pa) : vector_elem_type (vec_type (pa_type a)) = pa_type a.
 Proof. destruct (pa_type_cases a) as [E|E]; rewrite E; reflexivity. Qed.
 Lemma vec_is_vector (a : pa) : is_vector_type (vec_type (pa_type a)) = true.
